@@ -5,7 +5,7 @@ P = {
     "level_text": "exploration with an exhaustively enumerated core: every subset of a pool of <= 8 standards for every type and dimension <= 2 (quick) is accumulated one standard at a time with a solve after each; prefixes with fewer equations than unknowns must fail with EDOM, prefixes the model finds determining must solve and correct a device.",
     "design_ref": "DESIGN.md section 3 C20",
     "sources": ["harness/props/C20.cpp"],
-    "rule": "pool (<= 8) = up to three reflects per port (thinned first when capping, never below one per port), a through per pair, one or two random full-matrix standards, a double reflect entered as a matrix with explicit VNACAL_ZERO cells, a sparse multi-port standard with reciprocal or one-directional transmission cells and explicit zeros elsewhere; enum: type x legal dims (<= 2) x form x every subset of the pool x 3 orders with fixed numbers; run: dims <= 3, random numbers, random orders; each prefix classified too-few (equations < unknowns per system) / determining (Jacobian rank full, kappa < 1e5, leakage cells sampled) / gray (nothing asserted); non-trivial = history in which a failed solve is followed by a successful one on the same object; distinct = distinct choice tapes; the pool also holds one or two single reflects with an UNKNOWN reflection (guess within 10 %): prefixes containing them are judged by the too-few clause only, with total equations < systems x error terms + unknown parameters; half of the cases create 6..40 unrelated parameters first and delete a random run of them (from the auxiliary stream)",
+    "rule": "pool (<= 8) = up to three reflects per port (thinned first when capping, never below one per port), a through per pair, one or two random full-matrix standards, a double reflect entered as a matrix with explicit VNACAL_ZERO cells, a sparse multi-port standard with reciprocal or one-directional transmission cells and explicit zeros elsewhere; enum: type x legal dims (<= 2) x form x every subset of the pool x 3 orders with fixed numbers; run: dims <= 3, random numbers, random orders; each prefix classified too-few (equations < unknowns per system) / determining (Jacobian rank full, kappa < 1e5, leakage cells sampled) / gray (nothing asserted); non-trivial = history in which a failed solve is followed by a successful one on the same object; distinct = distinct choice tapes; the pool also holds one or two single reflects with an UNKNOWN reflection (guess within 10 %): prefixes containing them are judged by the too-few clause only, with total equations < systems x error terms + unknown parameters; half of the cases create 6..40 unrelated parameters first and delete a random run of them (from the auxiliary stream); rectangular calibrations also get a reflect on a port outside the square part of the measurement matrix (no equations, but an isolation measurement)",
     "assumptions": COMMON_ASSUME + ["equations are counted as vnacal_new(3) describes (measured cells with a signal path and known S row/column)", "a leakage term never sampled without a signal path is documented to stay undetermined: such sets are 'gray'"],
     "exhaustive_scope": "all (type, dims <= 2, form, subset of the pool, 3 orders) with one fixed set of numbers",
     "tiers": tiers(
